@@ -349,6 +349,24 @@ func runCheck(spec Spec, tier string) int {
 		wd = 10 * time.Minute
 	}
 	children := runChildren(spec, bin, tier, seed, n, wd, "", logDir)
+	if spec.ExtraRun != "" {
+		x := spec
+		x.Run, x.Race = spec.ExtraRun, spec.ExtraRace
+		xbin, err := build(x)
+		if err != nil {
+			fmt.Println(err)
+			fmt.Printf("CHECK-ERROR property=%s could not build engine %s (extra pass)\n", spec.ID, spec.Engine)
+			return 2
+		}
+		xdir := filepath.Join(logDir, "extra")
+		os.MkdirAll(xdir, 0o755)
+		xn := spec.ExtraShards
+		if xn == 0 {
+			xn = n
+		}
+		children = append(children, runChildren(x, xbin, tier, seed, xn, wd, "", xdir)...)
+		spec.Race = spec.Race || spec.ExtraRace
+	}
 	agg := aggregate(spec, children, logDir)
 
 	findings := loadFindings()
@@ -530,6 +548,8 @@ func aggregate(spec Spec, children []childOut, logDir string) aggT {
 	// race reports
 	if spec.Race {
 		files, _ := filepath.Glob(filepath.Join(logDir, "race.*"))
+		more, _ := filepath.Glob(filepath.Join(logDir, "extra", "race.*"))
+		files = append(files, more...)
 		_ = files
 		for _, f := range files {
 			b, _ := os.ReadFile(f)
@@ -607,7 +627,7 @@ func splitRaceBlocks(s string) []string {
 	return out
 }
 
-var reFrame = regexp.MustCompile(`(?m)^  ([^\s(]+)\(`)
+var reFrame = regexp.MustCompile(`(?m)^  (\S+)\(`)
 
 // raceSig: the first non-runtime frame of each of the two accesses, sorted.
 func raceSig(blk string) string {
